@@ -6,7 +6,7 @@
 use std::net::IpAddr;
 
 use roto::{FileTree, NoCtx, Package, RotoString, Runtime, TypedFunc};
-use vcore::util::{fnv_str, mix};
+use vcore::util::fnv_str;
 use vcore::{Cx, SUB_SETUP, Value, json};
 
 #[derive(Clone, Copy, PartialEq, Eq, Debug)]
@@ -55,9 +55,6 @@ impl Ty {
     }
     pub fn is_int(self) -> bool {
         INT_TYS.contains(&self)
-    }
-    pub fn is_float(self) -> bool {
-        matches!(self, Ty::F32 | Ty::F64)
     }
     /// documented range of an integer type (language_reference.md, "Integers";
     /// the maxima of i16/i32 in that table are typos for 32767 / 2147483647,
@@ -265,7 +262,7 @@ pub struct Sink {
 }
 
 impl Sink {
-    pub fn new(_merge: bool) -> Sink {
+    pub fn new() -> Sink {
         Sink { groups: vec![] }
     }
     pub fn flush(&mut self, cx: &mut Cx) {
@@ -318,12 +315,12 @@ fn expected_for(class: &str, c: &Case) -> Value {
 }
 
 /// Run the cases `(sub, case)` of one unit.
-pub fn run_cases(cx: &mut Cx, cases: Vec<(u64, Case)>, merge_runs: bool) {
+pub fn run_cases(cx: &mut Cx, cases: Vec<(u64, Case)>) {
     if !cx.case(SUB_SETUP) {
         return;
     }
     let rt = host::runtime();
-    let mut sink = Sink::new(merge_runs);
+    let mut sink = Sink::new();
     let mut accepted: Vec<(u64, Case)> = vec![];
     let mut n_trans = 0u64;
     let mut n_valid = 0u64;
@@ -476,5 +473,4 @@ pub fn run_cases(cx: &mut Cx, cases: Vec<(u64, Case)>, merge_runs: bool) {
     cx.transitions(n_trans);
     cx.validated(n_valid);
     cx.unspecified(n_unspec);
-    let _ = mix;
 }
